@@ -408,11 +408,21 @@ fn c03_histories(c: &WigCase, depth: usize, cached: bool, bytes: &[u8], out: &mu
             alpha.push((ci + 2000, 0, ch.len));
         }
         alpha.push((3000, 0, 5));
+        // calls that use the underlying source behind the cache's back (the summary, the item
+        // count and the schema are read through `raw_reader`), 4000; and `reopen()`: the history
+        // continues on the reopened reader (which inherits the caches but is a fresh source), 5000
+        alpha.push((4000, 0, 0));
+        alpha.push((5000, 0, 0));
         out.count("history_alphabet_size", alpha.len() as u64);
         // enumerate all sequences of length exactly `depth` (prefixes cover shorter ones)
+        let fresh_meta = {
+            let mut rd = BigWigRead::open(MemFile::new(bytes)).unwrap();
+            rd.get_summary().map(|x| format!("{:?}", x)).map_err(|e| format!("{}", e))
+        };
         let n = alpha.len();
         let total = n.pow(depth as u32);
         let mut states = std::collections::HashSet::new();
+        let mut seqs: Vec<Vec<(usize, u32, u32)>> = vec![];
         for code in 0..total {
             let mut seq = vec![];
             let mut x = code;
@@ -420,11 +430,44 @@ fn c03_histories(c: &WigCase, depth: usize, cached: bool, bytes: &[u8], out: &mu
                 seq.push(alpha[x % n]);
                 x /= n;
             }
+            seqs.push(seq);
+        }
+        if depth < 3 {
+            // sandwiches: query, one operation that is not a range query, query -- every such triple
+            let plain: Vec<(usize, u32, u32)> = alpha.iter().filter(|a| a.0 < 2000).cloned().collect();
+            let special: Vec<(usize, u32, u32)> = alpha.iter().filter(|a| a.0 >= 1000).cloned().collect();
+            for a in &plain {
+                for m in &special {
+                    for b in &plain {
+                        seqs.push(vec![*a, *m, *b]);
+                    }
+                }
+            }
+            out.count("history_sandwiches", (plain.len() * special.len() * plain.len()) as u64);
+        }
+        let total = seqs.len();
+        for seq in seqs {
             // one reader instance per history
             let mut answers: Vec<Vec<Triple>> = vec![];
             macro_rules! run {
                 ($rd:expr) => {{
                     for (ci, s, e) in &seq {
+                        if *ci >= 5000 {
+                            match $rd.reopen() {
+                                Ok(r2) => $rd = r2,
+                                Err(e) => out.fail("reopen_failed", &tags, format!("history {:?}: {}", seq, e)),
+                            }
+                            out.count("history_reopens", 1);
+                            continue;
+                        }
+                        if *ci >= 4000 {
+                            let got = $rd.get_summary().map(|x| format!("{:?}", x)).map_err(|e| format!("{}", e));
+                            if got != fresh_meta {
+                                out.fail("metadata_depends_on_history", &tags, format!("history {:?}: {:?}, a fresh reader gives {:?}", seq, got, fresh_meta));
+                            }
+                            out.count("history_metadata_calls", 1);
+                            continue;
+                        }
                         if *ci >= 3000 {
                             if $rd.get_interval("no_such_chromosome", *s, *e).is_ok() {
                                 out.fail("absent_chromosome_answered", &tags, format!("history {:?}", seq));
@@ -474,13 +517,13 @@ fn c03_histories(c: &WigCase, depth: usize, cached: bool, bytes: &[u8], out: &mu
                 }};
             }
             if cached {
-                let mut rd = BigWigRead::open(Cursor::new(bytes.to_vec())).unwrap().cached();
+                let mut rd = BigWigRead::open(MemFile::new(bytes)).unwrap().cached();
                 run!(rd);
             } else {
-                let mut rd = BigWigRead::open(Cursor::new(bytes.to_vec())).unwrap();
+                let mut rd = BigWigRead::open(MemFile::new(bytes)).unwrap();
                 run!(rd);
             }
-            out.count("history_transitions", depth as u64);
+            out.count("history_transitions", seq.len() as u64);
             states.insert(fnv(format!("{:?}", answers).as_bytes()));
         }
         out.count("histories", total as u64);
@@ -1248,9 +1291,19 @@ fn c04_histories(c: &BedCase, depth: usize, cached: bool, bytes: &[u8], out: &mu
             alpha.push((ci + 2000, 0, ch.len.max(1)));
         }
         alpha.push((3000, 0, 5));
+        // calls that use the underlying source behind the cache's back (the summary, the item
+        // count and the schema are read through `raw_reader`), 4000; and `reopen()`: the history
+        // continues on the reopened reader (which inherits the caches but is a fresh source), 5000
+        alpha.push((4000, 0, 0));
+        alpha.push((5000, 0, 0));
+        let fresh_meta = {
+            let mut rd = BigBedRead::open(MemFile::new(bytes)).unwrap();
+            (|| -> Result<String, String> { let a = rd.get_summary().map_err(|e| format!("{}", e))?; let b = rd.item_count().map_err(|e| format!("{}", e))?; let c = rd.autosql().map_err(|e| format!("{}", e))?; Ok(format!("{:?} {} {:?}", a, b, c)) })()
+        };
         let n = alpha.len();
         let total = n.pow(depth as u32);
         let mut states = std::collections::HashSet::new();
+        let mut seqs: Vec<Vec<(usize, u32, u32)>> = vec![];
         for code in 0..total {
             let mut seq = vec![];
             let mut x = code;
@@ -1258,10 +1311,43 @@ fn c04_histories(c: &BedCase, depth: usize, cached: bool, bytes: &[u8], out: &mu
                 seq.push(alpha[x % n]);
                 x /= n;
             }
+            seqs.push(seq);
+        }
+        if depth < 3 {
+            // sandwiches: query, one operation that is not a range query, query -- every such triple
+            let plain: Vec<(usize, u32, u32)> = alpha.iter().filter(|a| a.0 < 2000).cloned().collect();
+            let special: Vec<(usize, u32, u32)> = alpha.iter().filter(|a| a.0 >= 1000).cloned().collect();
+            for a in &plain {
+                for m in &special {
+                    for b in &plain {
+                        seqs.push(vec![*a, *m, *b]);
+                    }
+                }
+            }
+            out.count("history_sandwiches", (plain.len() * special.len() * plain.len()) as u64);
+        }
+        let total = seqs.len();
+        for seq in seqs {
             let mut answers = vec![];
             macro_rules! run {
                 ($rd:expr) => {{
                     for (ci, s, e) in &seq {
+                        if *ci >= 5000 {
+                            match $rd.reopen() {
+                                Ok(r2) => $rd = r2,
+                                Err(e) => out.fail("reopen_failed", &tags, format!("history {:?}: {}", seq, e)),
+                            }
+                            out.count("history_reopens", 1);
+                            continue;
+                        }
+                        if *ci >= 4000 {
+                            let got = (|| -> Result<String, String> { let a = $rd.get_summary().map_err(|e| format!("{}", e))?; let b = $rd.item_count().map_err(|e| format!("{}", e))?; let c = $rd.autosql().map_err(|e| format!("{}", e))?; Ok(format!("{:?} {} {:?}", a, b, c)) })();
+                            if got != fresh_meta {
+                                out.fail("metadata_depends_on_history", &tags, format!("history {:?}: {:?}, a fresh reader gives {:?}", seq, got, fresh_meta));
+                            }
+                            out.count("history_metadata_calls", 1);
+                            continue;
+                        }
                         if *ci >= 3000 {
                             if $rd.get_interval("no_such_chromosome", *s, *e).is_ok() {
                                 out.fail("absent_chromosome_answered", &tags, format!("history {:?}", seq));
@@ -1300,13 +1386,13 @@ fn c04_histories(c: &BedCase, depth: usize, cached: bool, bytes: &[u8], out: &mu
                 }};
             }
             if cached {
-                let mut rd = BigBedRead::open(Cursor::new(bytes.to_vec())).unwrap().cached();
+                let mut rd = BigBedRead::open(MemFile::new(bytes)).unwrap().cached();
                 run!(rd);
             } else {
-                let mut rd = BigBedRead::open(Cursor::new(bytes.to_vec())).unwrap();
+                let mut rd = BigBedRead::open(MemFile::new(bytes)).unwrap();
                 run!(rd);
             }
-            out.count("history_transitions", depth as u64);
+            out.count("history_transitions", seq.len() as u64);
             states.insert(fnv(format!("{:?}", answers).as_bytes()));
         }
         out.count("histories", total as u64);
